@@ -139,3 +139,52 @@ def argname_mismatches(facts, caller, bi, t, args):
             if callee.locals[i + 1]["t"] == callee.locals[j + 1]["t"]:
                 out.append("argument #%d `%s` is passed where `%s` is expected (callee has `%s` at #%d)" % (i, n, pnames[i], n, j))
     return out
+
+
+def field_reads(fn, field):
+    """[(block, stmt)] of statements / call arguments that load a place ending in `.field`."""
+    out = []
+
+    def ends_with(pl):
+        if not pl or "p" not in pl:
+            return False
+        fs = [e for e in pl["p"] if isinstance(e, dict) and "f" in e]
+        return bool(fs) and fs[-1]["f"] == field and pl["p"][-1] is fs[-1]
+    for bi, bb in enumerate(fn.blocks):
+        if bb["c"]:
+            continue
+        for si, st in enumerate(bb["s"]):
+            if st["k"] != "=":
+                continue
+            rv = st["rv"]
+            ops = []
+            for k in ("use", "a", "b"):
+                if k in rv and isinstance(rv[k], dict):
+                    ops.append(rv[k])
+            if "agg" in rv:
+                ops.extend(rv["ops"])
+            for o in ops:
+                pl = o.get("cp") or o.get("mv")
+                if ends_with(pl):
+                    out.append((bi, si))
+        t = bb["t"]
+        if t["k"] == "call":
+            for o in t["a"]:
+                pl = o.get("cp") or o.get("mv")
+                if ends_with(pl):
+                    out.append((bi, len(bb["s"])))
+    return out
+
+
+def read_before_call(fn, field, call_block):
+    """Every load of `.field` happens before the call in `call_block` executes (its block
+    dominates the call block, or it is an earlier statement / the argument of that block)."""
+    rs = field_reads(fn, field)
+    if not rs:
+        return False
+    for (bi, si) in rs:
+        if bi == call_block:
+            continue
+        if not cfg.dominates(fn, bi, call_block):
+            return False
+    return True
